@@ -91,6 +91,8 @@ def relevant(div, spec):
         return "treasury" in spec.get("extra", [])
     if ch.startswith("proto."):
         return "proto" in spec.get("extra", [])
+    if ch.startswith("migrate."):
+        return "migration" in spec.get("extra", [])
     if ch == "build-vs-build":
         return "crossbuild" in spec.get("extra", [])
     if ch in ("outcome", "msgs"):
@@ -231,6 +233,16 @@ def check(pid, tier, seed):
         notes["proto_differential"] = {k: v for k, v in ps_.items() if k != "samples"}
         for x in pd:
             divs.append({"seed": seed, "channel": "proto." + x["kind"], "detail": x, "events": []})
+    if "migration" in spec.get("extra", []):
+        from vlib import migdiff
+        ms_, md, mf = migdiff.run(300 if quick else 20000, seed)
+        all_stats.histories += ms_["cases"]
+        all_stats.calls += ms_["cases"]
+        all_stats.signatures |= {("migrate", i) for i in range(ms_["signatures"])}
+        all_stats.samples = (ms_["samples"][:2] + all_stats.samples)[:3]
+        notes["migration_differential"] = {k: v for k, v in ms_.items() if k != "samples"}
+        divs += md
+        findings += mf
     if "treasury" in spec.get("extra", []):
         from vlib import treasury
         ts, td, tf = treasury.run(150 if quick else 4000, seed, 60 if quick else 120)
